@@ -164,6 +164,16 @@ func (e *Engine) setupIntrinsics() {
 		effect(st, "vpOldWrites")
 		return BVC(64, uint64(st.OldWrites))
 	}
+	n[p+"vpPeakMark"] = func(e *Engine, st *State, fn *ssa.Function, a []Value) Value {
+		effect(st, "vpPeakMark")
+		st.PeakOn, st.PeakFrames = true, len(st.Frames)
+		return nil
+	}
+	n[p+"vpPeakDepth"] = func(e *Engine, st *State, fn *ssa.Function, a []Value) Value {
+		effect(st, "vpPeakDepth")
+		st.PeakOn = false
+		return BVC(64, uint64(st.PeakFrames-len(st.Frames)))
+	}
 	n[p+"vpStackDepth"] = func(e *Engine, st *State, fn *ssa.Function, a []Value) Value {
 		return BVC(64, uint64(len(st.Frames)))
 	}
